@@ -55,6 +55,14 @@ func pikeGoroutines() []string {
 }
 
 func c02History(r *hx.Run, w *W, rnd *rand.Rand, hi int, epochs []c02Epoch) {
+	// clients made for single requests keep their idle connections open: close them when the history is over
+	// (a thorough run makes tens of thousands of them - file descriptors of this process)
+	var tmpClients []*hx.Client
+	defer func() {
+		for _, c := range tmpClients {
+			c.CloseIdle()
+		}
+	}()
 	const T, P = 2, 2
 	uri := fmt.Sprintf("/c02/%d/%d", r.Seed, hi)
 	key := "GET c02.example " + uri
@@ -120,6 +128,7 @@ func c02History(r *hx.Run, w *W, rnd *rand.Rand, hi int, epochs []c02Epoch) {
 		var resF *hx.Result
 		doneF := make(chan struct{})
 		fetcherClient := hx.NewClient(w.Clock.Now)
+		tmpClients = append(tmpClients, fetcherClient)
 		go func() {
 			defer close(doneF)
 			frq := rq
@@ -147,6 +156,10 @@ func c02History(r *hx.Run, w *W, rnd *rand.Rand, hi int, epochs []c02Epoch) {
 			return
 		}
 		baseReg := w.Pts.Count("get.registered")
+		// taken as soon as the fetch is at the origin: the location's 200 ms proxy timeout may end the fetch
+		// at any moment from here on (on a loaded machine even before the waiters have arrived)
+		enterBefore := w.Pts.Count("cacheable.enter") + w.Pts.Count("hfp.enter")
+		savedBefore := w.Pts.Count("cacheable.saved") + w.Pts.Count("hfp.saved")
 		var hold *hx.Hold
 		if strings.HasPrefix(ep.Variant, "held_registered") && ep.Waiters > 0 {
 			hold = w.Pts.HoldNext("get.registered")
@@ -174,6 +187,7 @@ func c02History(r *hx.Run, w *W, rnd *rand.Rand, hi int, epochs []c02Epoch) {
 		if ep.Variant == "waiter_client_abort" {
 			// one more coalesced client, which gives up (drops its connection) before the fetch ends
 			quitter := hx.NewClient(w.Clock.Now)
+			tmpClients = append(tmpClients, quitter)
 			qdone := make(chan struct{})
 			regBefore := w.Pts.Count("get.registered")
 			go func() { defer close(qdone); aborted = quitter.Do(rq) }()
@@ -215,8 +229,6 @@ func c02History(r *hx.Run, w *W, rnd *rand.Rand, hi int, epochs []c02Epoch) {
 			cache.RemoveHTTPCache("c02", []byte(key))
 			r.Add("purges_racing_completion", 1)
 		}
-		enterBefore := w.Pts.Count("cacheable.enter") + w.Pts.Count("hfp.enter")
-		savedBefore := w.Pts.Count("cacheable.saved") + w.Pts.Count("hfp.saved")
 		if ep.Outcome == "client_abort" {
 			// the fetcher's client drops its connection while the origin still holds the fetch
 			fetcherClient.HC.Transport.(*http.Transport).CloseIdleConnections()
